@@ -1,0 +1,31 @@
+// Copyright (C) 2025 Michael S. Klishin and Contributors
+//
+// Licensed under the Apache License, Version 2.0 (the "License");
+// you may not use this file except in compliance with the License.
+// You may obtain a copy of the License at
+//
+// http://www.apache.org/licenses/LICENSE-2.0
+//
+// Unless required by applicable law or agreed to in writing, software
+// distributed under the License is distributed on an "AS IS" BASIS,
+// WITHOUT WARRANTIES OR CONDITIONS OF ANY KIND, either express or implied.
+// See the License for the specific language governing permissions and
+// limitations under the License.
+
+//! Reading integer fields of Elixir structs.
+
+use erltf::{Atom, OwnedTerm};
+use std::collections::BTreeMap;
+
+/// The integer held by `term`, provided it is within the range of `T`.
+pub(crate) fn integer<T: TryFrom<i64>>(term: &OwnedTerm) -> Option<T> {
+    T::try_from(term.as_integer()?).ok()
+}
+
+/// The integer stored under the atom `key`, provided it is within the range of `T`.
+pub(crate) fn integer_field<T: TryFrom<i64>>(
+    map: &BTreeMap<OwnedTerm, OwnedTerm>,
+    key: &str,
+) -> Option<T> {
+    integer(map.get(&OwnedTerm::Atom(Atom::new(key)))?)
+}
